@@ -201,6 +201,10 @@ cdef class DefaultRecordBatch:
         cdef:
             char* buf
 
+        if self._buffer.len < FIRST_RECORD_OFFSET:
+            raise CorruptRecordException(
+                "Record batch of {} bytes is shorter than its header".format(
+                    self._buffer.len))
         buf = <char*> self._buffer.buf
         self.base_offset = hton.unpack_int64(&buf[BASE_OFFSET_OFFSET])
         self.length = hton.unpack_int32(&buf[LENGTH_OFFSET])
@@ -255,9 +259,27 @@ cdef class DefaultRecordBatch:
             self, Py_ssize_t pos, Py_ssize_t size) except -1:
         """ Confirm that the slice is not outside buffer range
         """
-        if pos + size > self._buffer.len:
+        if size < 0 or size > self._buffer.len - pos:
             raise CorruptRecordException(
                 "Can't read {} bytes from pos {}".format(size, pos))
+
+    cdef inline int _read_varint(
+            self, char* buf, Py_ssize_t* read_pos,
+            int64_t* out_value) except -1:
+        """ Decode a varint, that has to end inside of the buffer
+        """
+        cdef:
+            Py_ssize_t pos = read_pos[0]
+            Py_ssize_t buffer_len = self._buffer.len
+        while True:
+            if pos >= buffer_len:
+                raise CorruptRecordException(
+                    "Can't read varint from pos {}".format(read_pos[0]))
+            if buf[pos] & 0x80 == 0:
+                break
+            pos += 1
+        cutil.decode_varint64(buf, read_pos, out_value)
+        return 0
 
     cdef DefaultRecord _read_msg(self):
         # Record =>
@@ -295,25 +317,20 @@ cdef class DefaultRecordBatch:
         # Minimum record size check
 
         buf = <char*> self._buffer.buf
-        self._check_bounds(pos, 1)
-        cutil.decode_varint64(buf, &pos, &length)
+        self._read_varint(buf, &pos, &length)
         start_pos = pos
-        self._check_bounds(pos, 1)
-        cutil.decode_varint64(buf, &pos, &attrs)
+        self._read_varint(buf, &pos, &attrs)
 
-        self._check_bounds(pos, 1)
-        cutil.decode_varint64(buf, &pos, &ts_delta)
+        self._read_varint(buf, &pos, &ts_delta)
         if self.attributes & _TIMESTAMP_TYPE_MASK:  # LOG_APPEND_TIME
             timestamp = self.max_timestamp
         else:
             timestamp = self.first_timestamp + ts_delta
 
-        self._check_bounds(pos, 1)
-        cutil.decode_varint64(buf, &pos, &offset_delta)
+        self._read_varint(buf, &pos, &offset_delta)
         offset = self.base_offset + offset_delta
 
-        self._check_bounds(pos, 1)
-        cutil.decode_varint64(buf, &pos, &key_len)
+        self._read_varint(buf, &pos, &key_len)
         if key_len >= 0:
             self._check_bounds(pos, <Py_ssize_t> key_len)
             key = PyBytes_FromStringAndSize(
@@ -322,8 +339,7 @@ cdef class DefaultRecordBatch:
         else:
             key = None
 
-        self._check_bounds(pos, 1)
-        cutil.decode_varint64(buf, &pos, &value_len)
+        self._read_varint(buf, &pos, &value_len)
         if value_len >= 0:
             self._check_bounds(pos, <Py_ssize_t> value_len)
             value = PyBytes_FromStringAndSize(
@@ -332,15 +348,14 @@ cdef class DefaultRecordBatch:
         else:
             value = None
 
-        self._check_bounds(pos, 1)
-        cutil.decode_varint64(buf, &pos, &header_count)
+        self._read_varint(buf, &pos, &header_count)
         if header_count < 0:
             raise CorruptRecordException("Found invalid number of record "
                                          "headers {}".format(header_count))
         headers = []
         while header_count > 0:
             # Header key is of type String, that can't be None
-            cutil.decode_varint64(buf, &pos, &key_len)
+            self._read_varint(buf, &pos, &key_len)
             if key_len < 0:
                 raise CorruptRecordException(
                     "Invalid negative header key size %d" % (key_len, ))
@@ -350,7 +365,7 @@ cdef class DefaultRecordBatch:
             pos += <Py_ssize_t> key_len
 
             # Value is of type NULLABLE_BYTES, so it can be None
-            cutil.decode_varint64(buf, &pos, &value_len)
+            self._read_varint(buf, &pos, &value_len)
             if value_len >= 0:
                 self._check_bounds(pos, <Py_ssize_t> value_len)
                 h_value = PyBytes_FromStringAndSize(
